@@ -137,6 +137,15 @@ func c15MethodsOf(t reflect.Type) []reflect.Method {
 }
 
 // c15Pipeline draws a well-formed query, mostly following types.
+// c15IllTyped: stages that make reflection-based code panic when they meet
+// the wrong kind of value.
+var c15IllTyped = []string{
+	`.String | NodesWithTagPath("BIRT")`, `First("-1")`, `Last("-1")`, `First(-1)`, `Combine(.Parents, .Spouses)`, `Combine(.Name, .Sex)`,
+	`.Value | NodesWithTagPath("DATE")`, `.Nodes | .Nodes | First(1) | .Nodes`, `Combine | ?`, `.Name | ?`, `? | ?`, `.Nodes | {a: .Nodes} | .a > 1`,
+	`.Nodes | .Nodes = .Nodes`, `.Age | .Years > .Nodes`, `Length | First(1)`, `.Pointer | Last(2)`, `.Nodes | Combine`, `MergeDocumentsAndIndividuals(.Name, .Sex)`,
+	`.Families | .Husband | .Individual | .Name | NodesWithTagPath("GIVN") | Combine(.Value)`,
+}
+
 func c15Pipeline(r *fw.Rand, depth int) string {
 	var parts []string
 	cur := reflect.TypeOf(&gedcom.Document{})
@@ -223,6 +232,18 @@ func c15Pipeline(r *fw.Rand, depth int) string {
 		}
 	}
 	qs := strings.Join(parts, " | ")
+	if r.Chance(1, 8) {
+		// a stage that is ill-typed for the elements it is applied to, inside
+		// the functions that evaluate their argument once per element of a
+		// list (lists of every size: the documents have up to 60 people)
+		stage := c15IllTyped[r.Intn(len(c15IllTyped))]
+		if r.Chance(1, 4) {
+			stage = qs
+		}
+		src := []string{".Individuals", ".Families", ".Nodes", ".Individuals | .Nodes", ".Individuals | .Names", ".Sources", ".Places", "Document1 | .Individuals"}[r.Intn(8)]
+		wrap := []string{"Only(%s)", "Only(%s = 1)", "{a: %s}", "%s", "Combine(%s)", "First(3) | Only(%s)", "Only(%s) | Length", "Only(.Pointer != \"\") | Only(%s)"}[r.Intn(8)]
+		qs = src + " | " + fmt.Sprintf(wrap, stage)
+	}
 	if r.Chance(1, 4) {
 		// variables, sometimes undefined / self-referential / mutually recursive
 		switch r.Intn(9) {
@@ -283,7 +304,11 @@ type c15Docs struct {
 }
 
 func c15MakeDocs(r *fw.Rand) c15Docs {
-	g := gen.NewFG(r, gen.FGOpts{People: r.Range(3, 12), MultiNames: true, MissingBits: true, WithUIDs: true, WithSources: true})
+	people := r.Range(3, 12)
+	if r.Chance(1, 3) {
+		people = r.Range(13, 60)
+	}
+	g := gen.NewFG(r, gen.FGOpts{People: people, MultiNames: true, MissingBits: true, WithUIDs: true, WithSources: true})
 	g2 := gen.NewFG(r, gen.FGOpts{People: r.Range(1, 6), PtrPrefix: "J"})
 	// a document with structural faults (dangling and wrong-kind references,
 	// people without a name, empty values...): accessors then yield nil
